@@ -30,6 +30,7 @@ var fxMode bool
 type psig struct {
 	params  []gty
 	results []gty
+	fx      bool // floats are FX trees in this function (utils.go) rather than bit patterns (floats.go)
 }
 
 type pctx struct {
@@ -110,6 +111,12 @@ func (t *trans) bindCall(c *ast.CallExpr, names []string, cont func(tys []gty) s
 		if ty != sg.params[i] {
 			panic(fmt.Sprintf("translate: argument %d of %s has type %s, want %s", i, fn, ty, sg.params[i]))
 		}
+		if ty == "f64" && sg.fx && !fxMode {
+			s = "(Go.FX.ofBits " + s + ")" // a float value of floats.go handed to utils.go
+		}
+		if ty == "f64" && !sg.fx && fxMode {
+			panic("translate: a computed float handed to a function that takes floats apart")
+		}
 		args = append(args, s)
 	}
 	if len(names) != len(sg.results) {
@@ -163,7 +170,9 @@ func (t *trans) zero(ty gty) string {
 	case "bool":
 		return "false"
 	case "f64":
-		return "(Go.FX.lit \"0\")"
+		if fxMode {
+			return "(Go.FX.lit \"0\")"
+		}
 	}
 	return "(0 : " + leanTy(ty) + ")"
 }
@@ -262,6 +271,9 @@ func (t *trans) pblock(list []ast.Stmt, c pctx) string {
 				})
 			}
 		}
+		if len(s.Lhs) > 1 && len(s.Rhs) == 1 {
+			return t.multiAssign(s, rest)
+		}
 		if len(s.Lhs) == 1 && len(s.Rhs) == 1 && (s.Tok == token.DEFINE || s.Tok == token.ASSIGN) {
 			return t.hoist(s.Rhs, func() string {
 				lhsName, lhsTy := t.lhs(s.Lhs[0])
@@ -317,9 +329,14 @@ func (t *trans) pblock(list []ast.Stmt, c pctx) string {
 				return fmt.Sprintf(".throw (.panic %s Go.siteAssert)", strconv.Quote(assertMsg(exprText(t.p.fset, call.Args[1]))))
 			}
 		}
+	case *ast.SwitchStmt:
+		return t.auxSwitch(s, rest)
 	case *ast.ForStmt:
+		if s.Init != nil && s.Cond != nil && s.Post != nil {
+			return t.auxFor(s, rest)
+		}
 		if s.Init != nil || s.Cond != nil || s.Post != nil {
-			panic("translate: only `for { … }` is supported in stream functions")
+			panic("translate: unsupported loop header in a stream function")
 		}
 		if len(list) != 1 {
 			panic("translate: statements after an endless loop")
@@ -397,6 +414,29 @@ func (t *trans) group(as *ast.AssignStmt, begin *ast.CallExpr, after []ast.Stmt,
 		body = body[1:]
 	}
 	live := t.assignedIn(body)
+	if c.tail == nil {
+		// only what the rest of the function (or the discard flag) reads leaves the group
+		used := map[string]bool{}
+		mark := func(n ast.Node) {
+			ast.Inspect(n, func(x ast.Node) bool {
+				if id, ok := x.(*ast.Ident); ok {
+					used[id.Name] = true
+				}
+				return true
+			})
+		}
+		mark(endCall.Args[1])
+		for _, st := range restStmts {
+			mark(st)
+		}
+		var kept []string
+		for _, v := range live {
+			if used[v] {
+				kept = append(kept, v)
+			}
+		}
+		live = kept
+	}
 	var liveTy []gty
 	bodyS := t.pblock(body, pctx{tail: func() string {
 		var vals []string
@@ -418,25 +458,52 @@ func (t *trans) group(as *ast.AssignStmt, begin *ast.CallExpr, after []ast.Stmt,
 	if len(tys) > 0 {
 		tyS = strings.Join(tys, " × ")
 	}
+	// inner is written for column 2 (like every block); the lambda bodies of the group sit at column 4
 	unpack := func(inner string) string {
 		switch len(names) {
 		case 0:
-			return inner
+			return indent(inner)
 		case 1:
-			return fmt.Sprintf("let %s : %s := Go.Enc.dec v\n    %s", names[0], tyS, inner)
+			return fmt.Sprintf("let %s : %s := Go.Enc.dec v\n    %s", names[0], tyS, indent(inner))
 		}
-		return fmt.Sprintf("match (Go.Enc.dec v : %s) with\n    | %s =>\n    %s", tyS, tupleOf(names), inner)
+		return indent(t.letTuple(names, tys, tyS, "Go.Enc.dec v", inner))
 	}
 	disc, dty := t.expr(endCall.Args[1], "bool")
 	if dty != "bool" {
 		panic("translate: discard flag is not a bool")
 	}
 	restS := t.pblock(restStmts, c)
-	out := fmt.Sprintf(".group %s %s\n    (\n      %s)\n    (fun v =>\n    %s)\n    (fun v =>\n    %s)", label, standalone, indent(indent(bodyS)), unpack(disc), unpack(indent(restS)))
+	out := fmt.Sprintf(".group %s %s\n    (\n      %s)\n    (fun v =>\n    %s)\n    (fun v =>\n    %s)", label, standalone, indent(indent(bodyS)), unpack(disc), unpack(restS))
 	if len(pre) > 0 {
 		out = strings.Join(pre, "\n  ") + "\n  " + out
 	}
 	return out
+}
+
+// projections of an n-tuple (right-nested pairs): .1, .2.1, .2.2.1, …, .2.2…2
+func projOf(base string, i, n int) string {
+	s := base
+	for j := 0; j < i; j++ {
+		s += ".2"
+	}
+	if i < n-1 {
+		s += ".1"
+	}
+	return s
+}
+
+// bind the components of a tuple value to names by projections (lets reduce under simp; matches do not)
+func (t *trans) letTuple(names, tys []string, tupleTy string, val string, rest string) string {
+	tmp := t.fresh("t")
+	var b strings.Builder
+	fmt.Fprintf(&b, "let %s : %s := %s\n  ", tmp, tupleTy, val)
+	for i, n := range names {
+		if n == "_" {
+			continue
+		}
+		fmt.Fprintf(&b, "let %s : %s := %s\n  ", n, tys[i], projOf(tmp, i, len(names)))
+	}
+	return b.String() + rest
 }
 
 func tupleOf(vals []string) string {
@@ -494,12 +561,12 @@ func kType(results []gty) string {
 }
 
 // progFunction translates a function whose first parameter is the bit stream
-func (t *trans) progFunction(key string) string {
+func (t *trans) progFunction(key string, fx bool) string {
 	d, ok := t.p.funcs[key]
 	if !ok {
 		panic("translate: no function " + key)
 	}
-	fxMode = true
+	fxMode = fx
 	defer func() { fxMode = false }()
 	t.env = map[string]gty{}
 	t.fields = map[string]gty{}
@@ -541,6 +608,7 @@ func (t *trans) progFunction(key string) string {
 	if len(sg.results) == 0 {
 		panic("translate: stream function without results: " + key)
 	}
+	sg.fx = fx
 	t.psigs[key] = sg // (recursion is not supported: the signature is registered for later functions)
 	ret := func(vals []string) string { return "k " + strings.Join(vals, " ") }
 	body := t.pblock(d.Body.List, pctx{sg.results, ret, nil})
@@ -559,11 +627,18 @@ func (t *trans) pureStmts(list []ast.Stmt) bool {
 	for _, st := range list {
 		switch x := st.(type) {
 		case *ast.AssignStmt:
-			if len(x.Lhs) != 1 || len(x.Rhs) != 1 || len(t.streamCalls(x)) > 0 || (x.Tok != token.ASSIGN && x.Tok != token.DEFINE) {
+			if len(x.Rhs) != 1 || len(t.streamCalls(x)) > 0 || (x.Tok != token.ASSIGN && x.Tok != token.DEFINE) {
 				return false
 			}
-			if _, ok := x.Lhs[0].(*ast.Ident); !ok {
-				return false
+			for _, l := range x.Lhs {
+				if _, ok := l.(*ast.Ident); !ok {
+					return false
+				}
+			}
+			if len(x.Lhs) > 1 {
+				if _, ok := x.Rhs[0].(*ast.CallExpr); !ok {
+					return false
+				}
 			}
 		case *ast.IfStmt:
 			if x.Init != nil || len(t.streamCalls(x.Cond)) > 0 || !t.pureStmts(x.Body.List) {
@@ -595,16 +670,18 @@ func (t *trans) outerAssigned(list []ast.Stmt) []string {
 	for _, st := range list {
 		ast.Inspect(st, func(n ast.Node) bool {
 			if as, ok := n.(*ast.AssignStmt); ok {
-				id := as.Lhs[0].(*ast.Ident)
-				_, outer := t.env[id.Name]
-				if as.Tok == token.DEFINE && outer {
-					panic("translate: a branch redeclares " + id.Name)
-				}
-				if as.Tok == token.ASSIGN {
-					if !outer {
-						panic("translate: assignment to an unknown variable " + id.Name)
+				for _, l := range as.Lhs {
+					id := l.(*ast.Ident)
+					_, outer := t.env[id.Name]
+					if as.Tok == token.DEFINE && outer {
+						panic("translate: a branch redeclares " + id.Name)
 					}
-					seen[id.Name] = true
+					if as.Tok == token.ASSIGN {
+						if !outer {
+							panic("translate: assignment to an unknown variable " + id.Name)
+						}
+						seen[id.Name] = true
+					}
 				}
 			}
 			return true
@@ -630,7 +707,7 @@ func (t *trans) bindTuple(vars []string, val string, rest func() string) string 
 	case 1:
 		return fmt.Sprintf("let %s : %s := %s\n  %s", names[0], tys[0], val, rest())
 	}
-	return fmt.Sprintf("match ((%s) : %s) with\n  | %s =>\n  %s", val, strings.Join(tys, " × "), tupleOf(names), rest())
+	return t.letTuple(names, tys, strings.Join(tys, " × "), val, rest())
 }
 
 func (t *trans) pureIfExpr(s *ast.IfStmt, vars []string) string {
@@ -663,6 +740,9 @@ func (t *trans) pureBlockExpr(list []ast.Stmt, vars []string) string {
 	rest := func() string { return t.pureBlockExpr(list[1:], vars) }
 	switch x := list[0].(type) {
 	case *ast.AssignStmt:
+		if len(x.Lhs) > 1 {
+			return t.multiAssign(x, rest)
+		}
 		lhsName, lhsTy := t.lhs(x.Lhs[0])
 		e, ty := t.expr(x.Rhs[0], lhsTy)
 		if ty == "" {
@@ -678,4 +758,114 @@ func (t *trans) pureBlockExpr(list []ast.Stmt, vars []string) string {
 		return t.bindTuple(inner, t.pureIfExpr(x, inner), rest)
 	}
 	panic("translate: not a pure statement")
+}
+
+// a, b, c = f(x): a pure translated function with several results
+func (t *trans) multiAssign(s *ast.AssignStmt, rest func() string) string {
+	call, ok := s.Rhs[0].(*ast.CallExpr)
+	if !ok {
+		panic("translate: unsupported multi-value assignment")
+	}
+	fn := exprText(t.p.fset, call.Fun)
+	sg, ok := t.sigs[fn]
+	if !ok || len(sg.results) != len(s.Lhs) {
+		panic("translate: multi-value assignment from " + fn)
+	}
+	var args []string
+	for i, a := range call.Args {
+		e, ty := t.expr(a, sg.params[i])
+		if ty != sg.params[i] {
+			panic(fmt.Sprintf("translate: argument %d of %s has type %s, want %s", i, fn, ty, sg.params[i]))
+		}
+		args = append(args, e)
+	}
+	var names, tys []string
+	for i, l := range s.Lhs {
+		id, ok := l.(*ast.Ident)
+		if !ok {
+			panic("translate: unsupported assignment target")
+		}
+		if old, ok := t.env[id.Name]; ok && s.Tok == token.ASSIGN && old != sg.results[i] {
+			panic("translate: assignment changes the type of " + id.Name)
+		}
+		if id.Name != "_" {
+			t.env[id.Name] = sg.results[i]
+		}
+		names = append(names, t.name(id.Name))
+		tys = append(tys, leanTy(sg.results[i]))
+	}
+	return t.letTuple(names, tys, strings.Join(tys, " × "), fn+" "+strings.Join(args, " "), rest())
+}
+
+func (t *trans) nthOf(target ast.Node, match func(ast.Node) bool) int {
+	d := t.p.funcs[t.self]
+	n, found := 0, -1
+	ast.Inspect(d.Body, func(nd ast.Node) bool {
+		if nd != nil && match(nd) {
+			if nd == target {
+				found = n
+			}
+			n++
+		}
+		return true
+	})
+	if found < 0 {
+		panic("translate: statement not found in its function")
+	}
+	return found
+}
+
+// a tag-less switch that only assigns: the definition translated on its own, applied to its free variables
+func (t *trans) auxSwitch(sw *ast.SwitchStmt, rest func() string) string {
+	if sw.Tag != nil || sw.Init != nil {
+		panic("translate: switch with a tag")
+	}
+	idx := t.nthOf(sw, func(n ast.Node) bool { s, ok := n.(*ast.SwitchStmt); return ok && s.Tag == nil })
+	info, ok := t.auxReg[fmt.Sprintf("%s#switch%d", t.self, idx)]
+	if !ok {
+		panic(fmt.Sprintf("translate: switch #%d of %s was not translated on its own", idx, t.self))
+	}
+	var args []string
+	for _, v := range info.fv {
+		if _, ok := t.env[v]; !ok {
+			panic("translate: switch uses an unknown variable " + v)
+		}
+		args = append(args, t.name(v))
+	}
+	for _, v := range info.assigned {
+		if _, ok := t.env[v]; !ok {
+			panic("translate: switch assigns an undeclared variable " + v)
+		}
+	}
+	return t.bindTuple(info.assigned, info.name+" "+strings.Join(args, " "), rest)
+}
+
+// a counting loop without stream calls: the definition translated on its own
+func (t *trans) auxFor(loop *ast.ForStmt, rest func() string) string {
+	if len(t.streamCalls(loop)) > 0 {
+		panic("translate: counting loop with stream calls")
+	}
+	idx := t.nthOf(loop, func(n ast.Node) bool { _, ok := n.(*ast.ForStmt); return ok })
+	info, ok := t.auxReg[fmt.Sprintf("%s#for%d", t.self, idx)]
+	if !ok {
+		panic(fmt.Sprintf("translate: loop #%d of %s was not translated on its own", idx, t.self))
+	}
+	init := loop.Init.(*ast.AssignStmt)
+	initS, ity := t.expr(init.Rhs[0], "")
+	cond := loop.Cond.(*ast.BinaryExpr)
+	boundS, _ := t.expr(cond.Y, ity)
+	if ity != "u64" {
+		panic("translate: counting loop over a signed variable")
+	}
+	var args []string
+	for _, v := range info.fv {
+		args = append(args, t.name(v))
+	}
+	var mut []string
+	for _, v := range info.assigned {
+		mut = append(mut, t.name(v))
+	}
+	// `bound - init` iterations are enough
+	val := fmt.Sprintf("%s %s (%s - %s).toNat %s %s", info.name, strings.Join(args, " "), boundS, initS, initS, strings.Join(mut, " "))
+	return t.bindTuple(info.assigned, val, rest)
 }
